@@ -6,24 +6,33 @@ from krrood.entity_query_language.match import (entity_matching, entity_selectio
 from krrood.entity_query_language.quantify_entity import an
 from test.dataset.semantic_world_like_classes import Cabinet, Drawer, Handle, Container, Body, FruitBox, Apple
 
+
+
+class EmptyishCabinet(Cabinet):
+    """A cabinet whose truth value is False (a collection-like object that is empty)."""
+
+    def __len__(self):
+        return 0
+
+
 SymbolGraph()
 
 
-def world():
+def world(falsy=False):
     c = {"c1": Container("c1"), "c2": Container("c2"), "c1b": Container("c1")}
     h = {"h1": Handle("h1"), "h2": Handle("h2")}
     d = {"d1": Drawer(handle=h["h1"], container=c["c1"]), "d2": Drawer(handle=h["h2"], container=c["c2"]),
          "d3": Drawer(handle=h["h1"], container=c["c1b"])}
     kc = {"k0": "c1", "k1": "c2", "k2": "c1", "k3": "c1b", "k4": "c2"}
     kd = {"k0": ["d1", "d2"], "k1": ["d1", "d2"], "k2": ["d1"], "k3": [], "k4": ["d3"]}
-    k = {n: Cabinet(container=c[kc[n]], drawers=[d[x] for x in kd[n]]) for n in kc}
+    k = {n: (EmptyishCabinet if falsy and n in ("k0", "k2") else Cabinet)(container=c[kc[n]], drawers=[d[x] for x in kd[n]]) for n in kc}
     return c, h, d, k
 
 
 TYPES = {"Container": Container, "Body": Body}
 
 
-def kwargs_for(pc, pd, c, d, sel):
+def kwargs_for(pc, pd, c, d, sel, seld=False):
     kw = {}
     if pc[0] == "lit":
         kw["container"] = c[pc[1]]
@@ -38,7 +47,7 @@ def kwargs_for(pc, pd, c, d, sel):
             inner["handle"] = match(Handle)(name=pd[1])
         if pd[2] != "*":
             inner["container"] = match(Container)(name=pd[2])
-        kw["drawers"] = match(Drawer)(**inner)
+        kw["drawers"] = (select if seld else match)(Drawer)(**inner)
     elif pd[0] == "any":
         kw["drawers"] = match_any([d[x] for x in sorted(pd[1])])
     elif pd[0] == "all":
@@ -66,7 +75,7 @@ def fruit(case):
 def handle(case):
     if "p" in case:
         return fruit(case)
-    c, h, d, k = world()
+    c, h, d, k = world(case.get("falsy", False))
     names = {id(o): n for dd in (c, h, d, k) for n, o in dd.items()}
     cabs = [k[n] for n in sorted(k)]
     if case.get("reverse"):
@@ -92,6 +101,20 @@ def handle(case):
             out["selected"] = rows
         except Exception as ex:
             out["select_error"] = f"{type(ex).__name__}: {ex}"
+    if case["pd"][0] == "match" and not case.get("falsy"):
+        # select(Drawer)(...) directly on the collection attribute: reports, per matched cabinet, the drawer that matched
+        try:
+            cab = entity_selection(Cabinet, cabs)
+            q = an(cab(**kwargs_for(case["pc"], case["pd"], c, d, False, seld=True)))
+            rows = []
+            for r in q.evaluate():
+                vs = list(r.values()) if hasattr(r, "values") else [r]
+                # the whole collection attribute is reported next to the flattened element: not part of the comparison
+                vals = [names.get(id(v), repr(type(v).__name__)) for v in vs if not isinstance(v, list)]
+                rows.append(sorted(vals, key=lambda s: (not s.startswith("k"), s)))
+            out["selected_drawers"] = rows
+        except Exception as ex:
+            out["select_drawers_error"] = f"{type(ex).__name__}: {ex}"
     return out
 
 
